@@ -192,16 +192,20 @@ func vh_C17_Body() {
 	if ctor >= 3 && ctor <= 5 {
 		wantBody, wantCT = "MULTI:v", "multipart/form-data; boundary=B"
 	}
-	vfAssert("lazy-nothing-sent-at-definition", len(e.tr.seen) == 0 && e.serCalls == 0)
-	var r *APIResponse[c17Target]
-	if !vfNoPanic("nopanic-eval", func() { r = mio.Eval() }) {
-		return
+	// "nothing is sent": the property does not say when the serializer runs, so only the transport is looked at here
+	vfAssert("lazy-nothing-sent-at-definition", len(e.tr.seen) == 0)
+	evals := 1 + vfChoose("second-evaluation", 2)
+	for k := 0; k < evals; k++ {
+		var r *APIResponse[c17Target]
+		if !vfNoPanic("nopanic-eval", func() { r = mio.Eval() }) {
+			return
+		}
+		vfAssert("one-request-per-evaluation", len(e.tr.seen) == k+1)
+		c17CheckRequest(e, k, method, wantRel, wantBody, wantCT)
+		vfAssert("no-error", r.Err == nil)
+		vfAssert("target-object", r.TargetObject == &target)
+		vfAssert("decoder-got-the-response-body", len(e.decBody) == k+1 && e.decBody[k] == "RESP")
 	}
-	vfAssert("one-request-per-evaluation", len(e.tr.seen) == 1)
-	c17CheckRequest(e, 0, method, wantRel, wantBody, wantCT)
-	vfAssert("no-error", r.Err == nil)
-	vfAssert("target-object", r.TargetObject == &target)
-	vfAssert("decoder-got-the-response-body", len(e.decBody) == 1 && e.decBody[0] == "RESP")
 	vfReach("end")
 }
 
